@@ -215,8 +215,10 @@ fn get_intervals<'a>(context: &CheckerContext, tour: &'a Tour) -> Vec<Vec<(usize
         .fold(Vec::<(usize, usize)>::default(), |mut acc, (idx, (_, to))| {
             let last_idx = legs.len() - 1;
             if is_reload_stop(context, to) || *idx == last_idx {
-                let start_idx = acc.last().map_or(0_usize, |item| item.1 + 2);
-                let end_idx = if *idx == last_idx { last_idx } else { *idx - 1 };
+                // NOTE an interval is half-open: the leg which ends at a reload stop does not belong to it, so
+                // the interval is empty when the reload stop is the first one after departure
+                let start_idx = acc.last().map_or(0_usize, |item| item.1 + 1);
+                let end_idx = if *idx == last_idx { last_idx + 1 } else { *idx };
 
                 acc.push((start_idx, end_idx));
             }
@@ -225,7 +227,7 @@ fn get_intervals<'a>(context: &CheckerContext, tour: &'a Tour) -> Vec<Vec<(usize
         })
         .into_iter()
         .map(|(start_idx, end_idx)| {
-            legs.iter().cloned().skip(start_idx).take(end_idx - start_idx + 1).collect::<Vec<_>>()
+            legs.iter().cloned().skip(start_idx).take(end_idx.saturating_sub(start_idx)).collect::<Vec<_>>()
         })
         .collect()
 }
